@@ -101,7 +101,7 @@ def plan(tier):
     p.append(('corr_correlate', 30 * m))
     p.append(('merge', 60 * m))
     p.append(('qtop', 40 * m))
-    p.append(('errors', 100 * m))
+    p.append(('errors', 150 * m))
     p.append(('flag', 40 * m))
     return p
 
@@ -343,7 +343,7 @@ def case_errors(ctx, rng):
     wtab = weight_table(rng, ctx.tier, ens='A')
     w = gen.table_to_obs(pe, wtab)
     n0 = sorted(wtab)[0]
-    row = int(rng.integers(0, 11))
+    row = int(rng.integers(0, 15))
     if row == 0:      # o has a configuration that w lacks
         otab = obs_on(rng, wtab, 'random', replica_subset=False)
         extra = max(wtab[n0]) + int(rng.integers(1, 4))
@@ -403,6 +403,32 @@ def case_errors(ctx, rng):
         expect_raises(ctx, lambda: pe.correlate(a, b), 'correlate:different-interior-configurations')
         ca = pe.Corr([a, a])
         expect_raises(ctx, lambda: ca.correlate(b), 'Corr.correlate:different-interior-configurations')
+    elif row == 11:   # reweight: weight AND observable live on the same two ensembles (the name test passes, the ensemble count must refuse)
+        other = {'B|r1': {c: float(rng.normal(2.0, 0.3)) for c in range(1, 12)}}
+        w2 = w + gen.table_to_obs(pe, other)
+        o2 = gen.table_to_obs(pe, obs_on(rng, wtab, 'full', replica_subset=False)) + gen.table_to_obs(pe, {'B|r1': {c: float(rng.normal()) for c in range(1, 12)}})
+        expect_raises(ctx, lambda: pe.reweight(w2, [o2]), 'reweight:weight-and-observable-on-two-ensembles')
+        o1 = gen.table_to_obs(pe, obs_on(rng, wtab, 'full', replica_subset=False))
+        expect_raises(ctx, lambda: pe.reweight(w2, [o1]), 'reweight:weight-on-two-ensembles')
+    elif row == 12:   # correlate: both operands on the same two ensembles
+        other = {'B|r1': {c: float(rng.normal(2.0, 0.3)) for c in range(1, 12)}}
+        a = gen.table_to_obs(pe, wtab) + gen.table_to_obs(pe, other)
+        b = gen.table_to_obs(pe, {n: {c: float(rng.normal()) for c in d} for n, d in wtab.items()}) + gen.table_to_obs(pe, {'B|r1': {c: float(rng.normal()) for c in range(1, 12)}})
+        expect_raises(ctx, lambda: pe.correlate(a, b), 'correlate:both-on-two-ensembles')
+    elif row == 13:   # correlate: both operands carry the same covariance input (names agree)
+        cv = pe.cov_Obs(0.0, 0.1, 'cvE')
+        a = gen.table_to_obs(pe, wtab) + cv
+        b = gen.table_to_obs(pe, {n: {c: float(rng.normal()) for c in d} for n, d in wtab.items()}) + 2.0 * cv
+        expect_raises(ctx, lambda: pe.correlate(a, b), 'correlate:both-with-covariance-input')
+    elif row == 14:   # correlate: same chains, one operand with fewer configurations on a chain
+        a = gen.table_to_obs(pe, wtab)
+        btab = {n: dict(d) for n, d in wtab.items()}
+        cfgs = sorted(btab[n0])
+        if len(cfgs) > 6:
+            del btab[n0][cfgs[int(rng.integers(0, len(cfgs)))]]
+            b = gen.table_to_obs(pe, btab)
+            expect_raises(ctx, lambda: pe.correlate(a, b), 'correlate:fewer-configurations-on-a-chain')
+            expect_raises(ctx, lambda: pe.correlate(b, a), 'correlate:fewer-configurations-on-a-chain')
     elif row == 5:    # correlate: different chains
         a = gen.table_to_obs(pe, wtab)
         b = gen.table_to_obs(pe, {n + 'x': d for n, d in wtab.items()})
